@@ -1,5 +1,5 @@
 /* Exact mini-model of vasprintf for the formats phosg's byte-escapers use: literals, %%, %c, %s, and hexadecimal
- * conversions %[0][width][hh|h|l|ll|z]X / x. Hex digits are produced nibble-wise (no division). Any other conversion
+ * conversions %[0][width|*][hh|h|l|ll|z]X / x. Hex digits are produced nibble-wise (no division). Any other conversion
  * (decimal, float) is NOT modelled: reaching one is an assertion failure ("UNMODELLED printf conversion"), never a guess.
  * Include from a harness file. Part of the claim wherever it is used. */
 #ifndef VERIF_STUB_PRINTF_H
@@ -34,6 +34,7 @@ uint32_t X_vasprintf(uint8_t* outp_, uint8_t* fmt_, uint8_t* va_) {
     int zero = 0; unsigned width = 0; int len = 0; /* len: -2 hh, -1 h, 0 int, 1 l, 2 ll */
     if (fmt[i] == '0') { zero = 1; i++; }
     while (fmt[i] >= '0' && fmt[i] <= '9') { width = width * 10 + (unsigned)(fmt[i] - '0'); i++; }
+    if (fmt[i] == '*') { int w = va_arg(va, int); width = w > 0 ? (unsigned)w : 0; i++; } /* "%0*lX": width from an int argument (non-negative) */
     if (fmt[i] == 'h') { len = -1; i++; if (fmt[i] == 'h') { len = -2; i++; } }
     else if (fmt[i] == 'l') { len = 1; i++; if (fmt[i] == 'l') { len = 2; i++; } }
     else if (fmt[i] == 'z') { len = 1; i++; }
